@@ -9,7 +9,7 @@
     and phase-direction sets kept by the sorter ([o_tr], [o_phase]) and the AcquisitionTime strings.
     Float arithmetic: [slice_times -= np.min(slice_times)] is [Common.F64.fsub] (round to nearest). *)
 From Coq Require Import List Bool Arith ZArith NArith QArith Qcanon Lia.
-From DV Require Import Common.Res Common.Str Common.F64 Common.PyNum Stack.Model Orient.Model Time.Model Conv.Geom.
+From DV Require Import Common.Res Common.Str Common.F64 Common.PyNum Generated.T_conv Stack.Model Orient.Model Time.Model Conv.Geom.
 Import ListNotations.
 Local Open Scope nat_scope.
 
@@ -22,8 +22,6 @@ Record hdr_out := mkhdr {
   h_slice_times : option (list Q)                       (* Some l: set_slice_times(l) called; None: not called *)
 }.
 
-Definition mm_str : str := [109; 109]%N.
-Definition msec_str : str := [109; 115; 101; 99]%N.
 
 (** [dcm_time_to_sec(file_info[0]['AcquisitionTime'])]: [NiftiWrapper.__getitem__] raises KeyError when
     the key is absent; non-finite results (strings such as "1234inf") are outside the model *)
@@ -110,7 +108,7 @@ Definition header_of (gs : list gfile) (go : geom_out) : res hdr_out :=
   match slice_times_arg gs (o_order n) nv n_slices with
   | Err e => Err e
   | Ok stimes =>
-      Ok (mkhdr slice_dim (mm_str, msec_str) (option_map (fun t : Qc => this t) (o_tr n))
+      Ok (mkhdr slice_dim xyzt_units (option_map (fun t : Qc => this t) (o_tr n))
                 (fst fp, snd fp, Some slice_dim) n_slices stimes)
   end.
 
